@@ -16,10 +16,11 @@ Inductive ty :=
 | UName (n : string) (r : rk) (args : list ty)     (* n  or  n[args] *)
 | UList (items : list ty)                          (* [a, b]  (first argument of Callable) *)
 | UUnion (items : list ty)                         (* a | b  written with PEP 604 syntax *)
+| UQuoted (t : ty)                                 (* a type written as a string literal: 'decimal.Decimal' *)
 | UEll                                             (* ... *)
 | ULit (text : string).                            (* literal inside Literal[...], as printed ('a', 1, True) *)
 
-Inductive tok := KName (s : string) | KLB | KRB | KComma | KBar | KEll | KLit (s : string).
+Inductive tok := KName (s : string) | KLB | KRB | KComma | KBar | KEll | KLit (s : string) | KQ.   (* KQ = a quote character *)
 
 Fixpoint join_with (sep : tok) (ls : list (list tok)) : list tok :=
   match ls with [] => [] | [x] => x | x :: r => x ++ sep :: join_with sep r end.
@@ -28,16 +29,21 @@ Definition subscript (name : string) (args : list (list tok)) : list tok :=
   match args with [] => [KName name] | _ => KName name :: KLB :: join_with KComma args ++ [KRB] end.
 
 (* AnnotationPrinter: visit_unbound_type / visit_union_type / visit_type_list / visit_ellipsis_type / raw literals *)
+(* args_str: every argument is VISITED (so its names reach the ImportTracker); an argument that was written as a
+   string literal (original_str_fallback) gets its quotes back around the visited text.  Everywhere else (top level,
+   members of Union/Optional, Callable argument lists) a quoted type is printed without quotes. *)
 Fixpoint print_ty (t : ty) : list tok :=
   match t with
   | UName n r args =>
       let pargs := map print_ty args in
+      let qargs := map (fun a => match a with UQuoted u => KQ :: print_ty u ++ [KQ] | _ => print_ty a end) args in
       match r with
       | RUnion => join_with KBar pargs
       | ROptional => match pargs with [a] => a ++ [KBar; KName "None"] | _ => [KName "Incomplete"] end
-      | RReplace new => subscript new pargs
-      | RPlain => subscript n pargs
+      | RReplace new => subscript new qargs
+      | RPlain => subscript n qargs
       end
+  | UQuoted u => print_ty u
   | UList items => KLB :: join_with KComma (map print_ty items) ++ [KRB]
   | UUnion items => join_with KBar (map print_ty items)
   | UEll => [KEll]
@@ -45,7 +51,7 @@ Fixpoint print_ty (t : ty) : list tok :=
   end.
 
 Definition render_tok (t : tok) : string :=
-  match t with KName s => s | KLB => "[" | KRB => "]" | KComma => ", " | KBar => " | " | KEll => "..." | KLit s => s end.
+  match t with KName s => s | KLB => "[" | KRB => "]" | KComma => ", " | KBar => " | " | KEll => "..." | KLit s => s | KQ => "'" end.
 Definition render_ann (ts : list tok) : string := fold_right (fun t s => String.append (render_tok t) s) "" ts.
 
 (* the names handed to ImportTracker.require_name while printing (add_name(..., require=True) for replacements and for
@@ -61,6 +67,7 @@ Fixpoint required_of (t : ty) : list string :=
       | RPlain => n :: rest
       end
   | UList items | UUnion items => flat_map required_of items
+  | UQuoted u => required_of u            (* visited like any other argument *)
   | UEll | ULit _ => []
   end.
 
@@ -72,6 +79,7 @@ Inductive nty :=
 | NName (n : string) (args : list nty)
 | NList (items : list nty)
 | NUnion (items : list nty)       (* at least two items, none of them a union *)
+| NQuoted (n : nty)               (* 'T' as a subscript argument: a forward reference to T *)
 | NEll
 | NLit (s : string).
 
@@ -82,12 +90,14 @@ Fixpoint norm (t : ty) : nty :=
   match t with
   | UName n r args =>
       let nargs := map norm args in
+      let qargs := map (fun a => match a with UQuoted u => NQuoted (norm u) | _ => norm a end) args in
       match r with
       | RUnion => mk_union (flat_map items_of nargs)
       | ROptional => match nargs with [a] => mk_union (items_of a ++ [NName "None" []]) | _ => NName "Incomplete" [] end
-      | RReplace new => NName new nargs
-      | RPlain => NName n nargs
+      | RReplace new => NName new qargs
+      | RPlain => NName n qargs
       end
+  | UQuoted u => norm u
   | UList items => NList (map norm items)
   | UUnion items => mk_union (flat_map items_of (map norm items))
   | UEll => NEll
@@ -99,14 +109,17 @@ Fixpoint pr (t : nty) : list tok :=
   | NName n args => subscript n (map pr args)
   | NList items => KLB :: join_with KComma (map pr items) ++ [KRB]
   | NUnion items => join_with KBar (map pr items)
+  | NQuoted n => KQ :: pr n ++ [KQ]
   | NEll => [KEll]
   | NLit s => [KLit s]
   end.
 
 (* ---------------------------------------------------------------- parser: expr := atom ('|' atom)* ;
    atom := NAME | NAME '[' exprs ']' | '[' [exprs] ']' | '...' | LITERAL ; exprs := expr (',' expr)* *)
-Definition p_atom (pes : list tok -> option (list nty * list tok)) (ts : list tok) : option (nty * list tok) :=
+Definition p_atom (pe : list tok -> option (nty * list tok)) (pes : list tok -> option (list nty * list tok))
+  (ts : list tok) : option (nty * list tok) :=
   match ts with
+  | KQ :: r => match pe r with Some (t, KQ :: r') => Some (NQuoted t, r') | _ => None end
   | KEll :: r => Some (NEll, r)
   | KLit s :: r => Some (NLit s, r)
   | KName n :: KLB :: r =>
@@ -121,7 +134,7 @@ Fixpoint p_expr (f : nat) (ts : list tok) : option (nty * list tok) :=
   match f with
   | 0 => None
   | S f' =>
-      match p_atom (p_exprs f') ts with
+      match p_atom (p_expr f') (p_exprs f') ts with
       | Some (a, KBar :: r) =>
           match p_expr f' r with
           | Some (NUnion items, r') => Some (NUnion (a :: items), r')
@@ -150,6 +163,7 @@ Fixpoint wf_ty (t : ty) : bool :=
   match t with
   | UName _ r args => forallb wf_ty args && match r with RUnion => negb (Nat.eqb (List.length args) 0) | _ => true end
   | UList items => forallb wf_ty items
+  | UQuoted u => wf_ty u && match u with UName _ _ _ => true | _ => false end   (* args_str re-quotes UnboundType arguments only *)
   | UUnion items => forallb wf_ty items && negb (Nat.eqb (List.length items) 0)
   | UEll | ULit _ => true
   end.
